@@ -39,12 +39,12 @@ var _ plenccodec.Outputter = nopOut{}
 
 // hostileInput returns an arbitrary byte string of length <= maxDecodeLen, with
 // or without spare capacity behind it, and arms the totality obligations:
-// loop unwinding bound len+8 and an allocation budget linear in the length.
+// loop unwinding bound len+16 and an allocation budget linear in the length.
 func hostileInput() []byte {
 	n := vrt.Choice("len", maxDecodeLen()+1)
 	tail := vrt.Choice("cap", 2) * 4
 	data := vrt.BytesTail("d", n, tail)
-	vrt.LoopBound(n + 8)
+	vrt.LoopBound(n + 16)
 	vrt.AllocBudget(int64(4096 * (n + 1)))
 	return data
 }
